@@ -775,6 +775,11 @@ class Gen:
             em.both(f"if {p}:", f"if {t}:")
             em.both(f"    __raise__({n}, {cls})")
             self.feat("raise_in_try")
+        if self.ok("return") and (rnd.random() < 0.2 or ctx.pop("force_try_return", False)):
+            # the try body ends with a return: what follows the try statement is reached only
+            # when a handler swallowed an exception
+            self.feat("try_body_ends_with_return")
+            self.emit_return(em, ctx)
         em.ip -= 1
         em.it -= 1
         ctx["bound"] = set(saved)
@@ -1114,6 +1119,13 @@ class Gen:
             self.stmt(em, ctx, 0)
         # tail
         r = rnd.random()
+        if self.ok("try") and rnd.random() < 0.15:
+            # the function ends with a try statement whose body returns
+            self.feat("tail_try_return")
+            ctx["force_try_return"] = True
+            self.s_try(em, ctx, 0)
+            ctx.pop("force_try_return", None)
+            r = 1.0
         if is_gen:
             if r < 0.3:
                 self.feat("gen_return_value")
@@ -1128,7 +1140,8 @@ class Gen:
                 self.emit_return(em, ctx)
             else:
                 self.feat("fallthrough")
-                em.ponly("pass")
+                # no trailing statement in the program: whatever compound statement comes last
+                # (try / if / loop / with / match) is the end of the function
                 em.tonly(f"return __m__({name!r}, '#value', None)")
         em.it -= 1
         em.tonly("except BaseException as __e:")
